@@ -10,7 +10,12 @@
 // socketpair for the fd-level API), wraps one or both ends in photon streams and runs short seeded programs:
 //   library side : read/readv/recv/recv(iov)/write/writev/send/send(iov) of the stream (or the fd-level functions of
 //                  net/basic_socket.cpp) with Inv / Resp events,
-//   peer side    : raw syscalls (PeerWrite{r}, PeerRead{r,ck}, PeerShutdown) or a second photon stream.
+//   peer side    : raw syscalls (PeerWrite{r}, PeerRead{r,ck}, PeerShutdown) or a second photon stream.  A raw peer trickles,
+//                  and when its partner has a short stream timeout it stalls once: it waits until the partner is blocked
+//                  (EAGAIN) and then withholds everything until that call has returned (the timeout must end it).
+//                  Every writer finally shuts its direction down, every reader drains to end of stream, so nothing is left
+//                  blocked or in flight at Quiesce.  "batch" modes: 17-24 connections whose readers are all blocked are made
+//                  readable at once (the engine fetches 16 events per epoll_wait).
 // Bytes are position coded: byte i of flow f has the value (i + 17 f) mod 251.  Each syscall event carries the extents
 // of the user buffer the library handed to the kernel ([element, offset, length]) and a weighted checksum of the bytes
 // transferred; each Resp carries the number of bytes moved and the checksum of the user buffer.  spec/Trace_SockStreamA.tla
@@ -448,14 +453,19 @@ static void shut_wr(Endpoint* ep) {
     sk.unlock();
 }
 
-static const int64_t STALL_CAP = 2500 * 1000;
-// the staller does nothing until the partner's current / next call has returned (its timeout must end it), or the partner is done
+static const uint64_t STALL_CAP = 2500 * 1000;
+// The staller waits until the partner is blocked in a call (its last syscall said EAGAIN; given up after 30 ms) and then does
+// nothing until that call has returned - the partner's timeout must end it.  STALL_CAP bounds the wait when it does not.
 static void stall_for_partner(Task* tk) {
     Task* p = tk->partner;
     tk->w.where = "stall";
     if (!p || !p->lib) { photon::thread_usleep(tk->stall); return; }
+    uint64_t t0 = photon::__update_now();
+    auto blocked = [&] { return p->cx.active && p->cx.eagain_run > 0; };
+    while (!p->prog_done.load() && !blocked() && photon::now - t0 < 30000) photon::thread_usleep(100);
+    if (p->prog_done.load() || !blocked()) return;
     int seq = p->resp_seq.load();
-    for (int64_t waited = 0; waited < STALL_CAP && !p->prog_done.load() && p->resp_seq.load() == seq; waited += 200) photon::thread_usleep(200);
+    while (!p->prog_done.load() && p->resp_seq.load() == seq && photon::now - t0 < STALL_CAP) photon::thread_usleep(200);
 }
 
 static void raw_task(Task* tk) {
